@@ -1013,3 +1013,113 @@ Proof.
              - rewrite Ho2, Ho1 by exact Hne'. reflexivity. }
     split; congruence.
 Qed.
+
+(** ** the range hypothesis of the round trips is an invariant of histories *)
+Lemma wl_nonneg s d : nonneg s -> (forall a, 0 <= ebal (wl s d) a) /\ etot (wl s d) < U256.
+Proof.
+  intros (_ & Hne & Hnt). unfold wl. destruct (reg s d); [split; [apply Hne|apply Hnt]|].
+  cbn. split; [lia|exact U256_pos].
+Qed.
+
+Lemma step_nonneg e s o s' : nonneg s -> op_wf e o -> step e s o = Ok s' tt -> nonneg s'.
+Proof.
+  intros Hnn Hs H. pose proof Hnn as (Hnb & Hne & Hnt). unfold op_wf in Hs.
+  destruct o as [dr i r d x|dr i r c x|dr i r d x|dr i r d x|c f t x|c t x|f t d x|en al];
+    cbn [step signer] in H, Hs.
+  - destruct (amount_ok dr x) eqn:Ea; [|discriminate]. apply amount_ok_range in Ea.
+    apply conv_coin_to_erc20_spec in H; [|congruence]. destruct H as (c & _ & H). cbv zeta in H.
+    destruct H as (Hf & Hun & Hle & Hb & Ht & Ho & Hbal & _).
+    split; [|split].
+    + intros a d'. rewrite Hbal. unfold dlt. specialize (Hnb a d').
+      destruct (Nat.eqb_spec a i) as [->|]; cbn [andb]; [|lia].
+      destruct (Nat.eqb_spec d' d) as [->|]; lia.
+    + intros c' a. destruct (Nat.eqb_spec c' c) as [->|Hne'].
+      * rewrite Hb. unfold dlt. specialize (Hne c a).
+        destruct (Nat.eqb a r), (Nat.eqb_spec a (macc e)) as [->|]; lia.
+      * rewrite Ho by exact Hne'. apply Hne.
+    + intros c'. destruct (Nat.eqb_spec c' c) as [->|Hne'].
+      * rewrite Ht. apply Hnt.
+      * rewrite Ho by exact Hne'. apply Hnt.
+  - destruct (amount_ok dr x) eqn:Ea; [|discriminate]. apply amount_ok_range in Ea.
+    apply conv_erc20_to_coin_spec in H. cbv zeta in H.
+    destruct H as (_ & _ & _ & _ & Hlk & Hle & Hb & Ht & Ho & Hbal & _).
+    set (d := pair_denom e c) in *.
+    assert (Hmint : 0 <= (if is_bep3 e d then x / K10 else x)).
+    { destruct (is_bep3 e d); [apply Z.div_pos; [lia|exact K10_pos]|lia]. }
+    split; [|split].
+    + intros a d'. rewrite Hbal. unfold dlt. specialize (Hnb a d').
+      destruct (Nat.eqb a r && Nat.eqb d' d); lia.
+    + intros c' a. destruct (Nat.eqb_spec c' c) as [->|Hne'].
+      * rewrite Hb. unfold dlt. specialize (Hne c a).
+        destruct (Nat.eqb a (macc e)), (Nat.eqb_spec a i) as [->|]; lia.
+      * rewrite Ho by exact Hne'. apply Hne.
+    + intros c'. destruct (Nat.eqb_spec c' c) as [->|Hne'].
+      * rewrite Ht. apply Hnt.
+      * rewrite Ho by exact Hne'. apply Hnt.
+  - destruct (amount_ok dr x) eqn:Ea; [|discriminate]. apply amount_ok_range in Ea.
+    apply conv_cosmos_to_erc20_spec in H; [|exact Ea].
+    destruct H as (_ & Hf & c & _ & _ & Hlt & Hb & Ht & Ho & Hbal & _).
+    destruct (wl_nonneg s d Hnn) as [Hw _].
+    split; [|split].
+    + intros a d'. rewrite Hbal. unfold dlt. specialize (Hnb a d').
+      destruct (Nat.eqb_spec a i) as [->|]; cbn [andb].
+      * destruct (Nat.eqb_spec d' d) as [->|]; destruct (Nat.eqb i (macc e)); cbn [andb]; lia.
+      * destruct (Nat.eqb a (macc e) && Nat.eqb d' d); lia.
+    + intros c' a. destruct (Nat.eqb_spec c' c) as [->|Hne'].
+      * rewrite Hb. unfold dlt. specialize (Hw a). destruct (Nat.eqb a r); lia.
+      * rewrite Ho by exact Hne'. apply Hne.
+    + intros c'. destruct (Nat.eqb_spec c' c) as [->|Hne'].
+      * rewrite Ht. exact Hlt.
+      * rewrite Ho by exact Hne'. apply Hnt.
+  - destruct (amount_ok dr x) eqn:Ea; [|discriminate]. apply amount_ok_range in Ea.
+    apply conv_cosmos_from_erc20_spec in H; [|exact Ea].
+    destruct H as (c & _ & _ & Hle & Hf & Hb & Ht & Ho & Hbal & _).
+    split; [|split].
+    + intros a d'. rewrite Hbal. unfold dlt. specialize (Hnb a d').
+      destruct (Nat.eqb_spec a (macc e)) as [->|]; cbn [andb].
+      * destruct (Nat.eqb_spec d' d) as [->|]; destruct (Nat.eqb (macc e) r); cbn [andb]; lia.
+      * destruct (Nat.eqb a r && Nat.eqb d' d); lia.
+    + intros c' a. destruct (Nat.eqb_spec c' c) as [->|Hne'].
+      * rewrite Hb. unfold dlt. specialize (Hne c a). destruct (Nat.eqb_spec a i) as [->|]; lia.
+      * rewrite Ho by exact Hne'. apply Hne.
+    + intros c'. destruct (Nat.eqb_spec c' c) as [->|Hne'].
+      * rewrite Ht. specialize (Hnt c). lia.
+      * rewrite Ho by exact Hne'. apply Hnt.
+  - destruct (Nat.leb (next s) c); [inversion H; subst; exact Hnn|].
+    destruct (erc_transfer (erc s c) f t x) as [l|] eqn:Et; [|discriminate].
+    inversion H; subst s'; clear H. apply erc_transfer_spec in Et. destruct Et as (Hle & Htot & Hb).
+    pose proof (u256_range x).
+    split; [exact Hnb|]. cbn [set_erc erc]. split.
+    + intros c' a. unfold upd. destruct (Nat.eqb_spec c' c) as [->|]; [|apply Hne].
+      rewrite Hb. unfold dlt. specialize (Hne c a).
+      destruct (Nat.eqb a t), (Nat.eqb_spec a f) as [->|]; lia.
+    + intros c'. unfold upd. destruct (Nat.eqb_spec c' c) as [->|]; [|apply Hnt]. rewrite Htot. apply Hnt.
+  - destruct (Nat.leb (next s) c); [inversion H; subst; exact Hnn|].
+    destruct (Nat.ltb c (npair e)); [|discriminate]. cbn [negb] in H.
+    destruct (erc_mint (erc s c) t x) as [l|] eqn:Em; [|discriminate].
+    inversion H; subst s'; clear H. apply erc_mint_spec in Em. destruct Em as (Hlt & Htot & Hb).
+    pose proof (u256_range x).
+    split; [exact Hnb|]. cbn [set_erc erc]. split.
+    + intros c' a. unfold upd. destruct (Nat.eqb_spec c' c) as [->|]; [|apply Hne].
+      rewrite Hb. unfold dlt. specialize (Hne c a). destruct (Nat.eqb a t); lia.
+    + intros c'. unfold upd. destruct (Nat.eqb_spec c' c) as [->|]; [|apply Hnt]. rewrite Htot. exact Hlt.
+  - destruct (Z.leb_spec x 0); [discriminate|].
+    destruct (blocked e t); [discriminate|].
+    destruct (bank_send s f t d x) as [s1|] eqn:Es; [|discriminate].
+    inversion H; subst s1; clear H.
+    apply bank_send_spec in Es. destruct Es as (Hf & (He1 & _) & _ & Hbal).
+    split; [|rewrite He1; split; assumption].
+    intros a d'. rewrite Hbal. unfold dlt. specialize (Hnb a d').
+    destruct (Nat.eqb_spec a f) as [->|]; cbn [andb].
+    + destruct (Nat.eqb_spec d' d) as [->|]; destruct (Nat.eqb f t); cbn [andb]; lia.
+    + destruct (Nat.eqb a t && Nat.eqb d' d); lia.
+  - inversion H; subst s'; clear H. exact Hnn.
+Qed.
+
+Lemma run_nonneg e ops : forall s, nonneg s -> Forall (op_wf e) ops -> nonneg (run e s ops).
+Proof.
+  induction ops as [|o r IH]; intros s Hnn Hall; cbn [run fold_left]; [exact Hnn|].
+  inversion Hall; subst. apply IH; [|assumption].
+  unfold step'. destruct (step e s o) as [s' []| |] eqn:E; try exact Hnn.
+  apply (step_nonneg e s o s' Hnn H1 E).
+Qed.
